@@ -123,6 +123,25 @@ class Bilinear2(nn.Module):
         return self.lin(x) * torch.tanh(self.gate) + x
 
 
+class SubLinear(nn.Linear):
+    """a user subclass of a SUPPORTED layer with its own forward (non-linear in the weight): it must
+    be served by the generic (functorch) fallback, not by nn.Linear's closed-form sampler"""
+
+    def __init__(self, f):
+        super().__init__(f, f)
+
+    def forward(self, x):
+        return F.linear(torch.tanh(x), self.weight * self.weight, self.bias) + x
+
+
+class SubConv2d(nn.Conv2d):
+    """weight-standardised convolution: subclass of a supported layer with an overridden forward"""
+
+    def forward(self, x):
+        w = self.weight - self.weight.mean(dim=(1, 2, 3), keepdim=True)
+        return F.conv2d(x, w, self.bias, self.stride, self.padding, self.dilation, self.groups)
+
+
 class Seq(nn.Module):
     """like nn.Sequential but a layer object may occur several times (tied / reused)"""
 
@@ -182,6 +201,10 @@ def build_layer(L, batch_first=True):
         m = Affine(L["F"])
     elif t == "Bilinear2":
         m = Bilinear2(L["F"])
+    elif t == "SubLinear":
+        m = SubLinear(L["F"])
+    elif t == "SubConv2d":
+        m = SubConv2d(L["C"], L["C"], 3, padding=1)
     elif t == "Residual":
         m = Residual(build_layer(L["block"], batch_first))
     elif t == "Transpose12":
@@ -599,9 +622,9 @@ def gen_spec(rng, allow_defects=True, mode=None):
         if k == "tok":
             opts = ["Embedding"]
         elif k == "vec":
-            opts = ["Linear", "Linear", "LayerNorm", "Act", "Affine", "Bilinear2", "Residual", "Reuse"]
+            opts = ["Linear", "Linear", "LayerNorm", "Act", "Affine", "Bilinear2", "SubLinear", "Residual", "Reuse"]
         elif k == "seq":
-            opts = ["Linear", "Linear", "LayerNorm", "Act", "RNN", "RNN", "Affine", "Transpose12", "Reuse", "Residual"]
+            opts = ["Linear", "Linear", "LayerNorm", "Act", "RNN", "RNN", "Affine", "SubLinear", "Transpose12", "Reuse", "Residual"]
             if not bf:
                 opts += ["MHA", "MHA"]
                 opts.remove("Transpose12")
@@ -610,9 +633,9 @@ def gen_spec(rng, allow_defects=True, mode=None):
             if k == "c1":
                 opts.append("Transpose12")
             if k == "c2":
-                opts += ["TransposeHW"] + (["ChannelsLast"] if allow_defects else [])
+                opts += ["SubConv2d", "TransposeHW"] + (["ChannelsLast"] if allow_defects else [])
         t = rng.choice(opts)
-        if mode == "ew" and t in ("RNN", "MHA", "Affine", "Bilinear2", "Reuse"):
+        if mode == "ew" and t in ("RNN", "MHA", "Affine", "Bilinear2", "SubLinear", "SubConv2d", "Reuse"):
             t = "Linear"
         L = None
         if t == "Embedding":
@@ -642,8 +665,10 @@ def gen_spec(rng, allow_defects=True, mode=None):
             L = {"t": t, "nshape": cur[-nd:], "bias": (not (allow_defects and rng.random() < 0.15))}
         elif t == "Act":
             L = {"t": t, "f": rng.choice(["tanh", "sigmoid", "softplus", "gelu"])}
-        elif t in ("Affine", "Bilinear2"):
+        elif t in ("Affine", "Bilinear2", "SubLinear"):
             L = {"t": t, "F": cur[-1]}
+        elif t == "SubConv2d":
+            L = {"t": t, "C": cur[0]}
         elif t == "RNN":
             h = rng.randint(1, 3)
             bid = rng.random() < 0.3
